@@ -21,7 +21,7 @@ func init() { register(c20{}) }
 
 func (c20) ID() string { return "C20" }
 func (c20) Cases(t fw.Tier) int {
-	return tierN(t, 6000, 200000)
+	return tierN(t, 8000, 250000)
 }
 func (c20) Rule() string {
 	return "each case builds a Schema tree that populates subschema-bearing fields found by the harness's OWN reflection over Schema's exported fields by Go type (*Schema, []*Schema, map[string]*Schema; incl. the draft-07 ones), depth <= 4, with nil and empty containers, " +
